@@ -66,8 +66,9 @@ KNOWN_ENCODINGS = {
 
 def sanitize_encoding(encoding: str) -> Optional[str]:
 	try:
-		name = codecs.lookup(encoding).name
-		if name not in KNOWN_ENCODINGS:
+		info = codecs.lookup(encoding)
+		name = info.name
+		if name not in KNOWN_ENCODINGS or not getattr(info, '_is_text_encoding', True):  # e.g. 'uu': bytes.decode() refuses it
 			raise LookupError
 	except (LookupError, ValueError):  # ValueError: embedded null character
 		return
